@@ -54,7 +54,7 @@ def guarded(fn, seconds=30):
 
 
 # --------------------------------------------------------------- cooler I/O
-def make_cooler(path, blocks, pixels, symmetric=True, extra=None, bin_weight=None, mode="w", count_dtype=None):
+def make_cooler(path, blocks, pixels, symmetric=True, extra=None, bin_weight=None, mode="w", count_dtype=None, more=None):
     """blocks: list of chromosome blocks [(cid,start,end)...]; pixels: sorted [(b1,b2,count)];
     extra: optional list of ints (second value column 'w'); bin_weight: optional list of floats
     stored as bin column 'weight'."""
@@ -72,6 +72,10 @@ def make_cooler(path, blocks, pixels, symmetric=True, extra=None, bin_weight=Non
         d["w"] = np.array(list(extra), dtype=np.int64)
         kw["columns"] = ["count", "w"]
         kw.setdefault("dtypes", {})["w"] = np.int64
+    for name, vals_ in (more or {}).items():          # further int64 value columns
+        d[name] = np.array(list(vals_), dtype=np.int64)
+        kw["columns"] = kw.get("columns", ["count"]) + [name]
+        kw.setdefault("dtypes", {})[name] = np.int64
     cooler.create_cooler(str(path), bins, pd.DataFrame(d), symmetric_upper=symmetric, mode=mode, **kw)
 
 
